@@ -221,6 +221,8 @@ MAP = {
 }
 
 # the productions property C18 names (name syntax)
-NAME_PRODUCTIONS = ["Name", "Nmtoken", "NCName", "PrefixedName", "QName", "PITarget", "EncName", "NSAttName"]
+# productions whose language is a character class or a name (C18): names, public-id and encoding-name literals, references by name
+NAME_PRODUCTIONS = ["Name", "Nmtoken", "NCName", "PrefixedName", "QName", "PITarget", "EncName", "NSAttName",
+                    "PubidLiteral", "EntityRef", "PEReference", "CharRef", "VersionNum"]
 
 ATOM_FNS = {"xml_parser::element": "element", "xml_parser::cp": "cp"}
